@@ -16,6 +16,55 @@ mod open;
 mod sets;
 mod tr;
 
+use std::cell::RefCell;
+
+thread_local! {
+    static ORACLE: RefCell<Vec<(u8, String, String, serde_json::Value)>> = const { RefCell::new(Vec::new()) };
+}
+
+/// Records a failure of the property statement. Failures are handed to `Ctx` at the end, the
+/// end-to-end ones first (honest proof rejected, forgery accepted), one per key, so that the most
+/// telling replays survive the cap of the evidence file.
+pub fn ofail(ctx: &mut Ctx, key: &str, what: &str, detail: serde_json::Value) {
+    let prio = if key.starts_with("honest-rejected") {
+        0
+    } else if key.starts_with("forgery-accepted") {
+        1
+    } else if key.starts_with("prover-fails") || key.starts_with("prover-garbage") {
+        2
+    } else if key.starts_with("sets:dup-accepted") || key.starts_with("sets:spurious-error") {
+        3
+    } else if key.starts_with("verifier-panics") {
+        4
+    } else {
+        5
+    };
+    ctx.count(&format!("oracle:{}", key.split(':').take(2).collect::<Vec<_>>().join(":")));
+    ORACLE.with(|o| {
+        let mut o = o.borrow_mut();
+        if o.len() < 20000 {
+            o.push((prio, key.to_string(), what.to_string(), detail));
+        }
+    });
+}
+
+fn flush_oracle(ctx: &mut Ctx) {
+    let mut all = ORACLE.with(|o| std::mem::take(&mut *o.borrow_mut()));
+    all.sort_by(|a, b| a.0.cmp(&b.0));
+    let mut seen = std::collections::HashSet::new();
+    let mut rest = vec![];
+    for (p, k, w, d) in all {
+        if seen.insert(k.clone()) {
+            ctx.oracle_fail(&k, &w, d);
+        } else {
+            rest.push((p, k, w, d));
+        }
+    }
+    for (_, k, w, d) in rest {
+        ctx.oracle_fail(&k, &w, d);
+    }
+}
+
 fn main() {
     let mut ctx = Ctx::from_args("C14");
     let thorough = !ctx.quick();
@@ -58,5 +107,6 @@ fn main() {
             cases::sweep(&mut ctx, &b, &p, &mut rng, Some(bd));
         }
     }
+    flush_oracle(&mut ctx);
     ctx.finish();
 }
